@@ -21,6 +21,11 @@ CHECKS = {
    note="Trusted: Coq kernel; hand-written model Model/VarScope.v; the hypothesis labels_once is monitored on every real input; reachability is the conservative 'may be skipped' reading of docs/errors.md; the index-based oracle (python) is a third opinion, not part of the proof. Print Assumptions: closed.",
    technique="Coq proof: simulation between the stateful analyzer model and a forward specification (invariant over scope stack / unresolved-label sets); differential correspondence + independent oracle",
    design="5/C05"),
+ "C01": dict(
+   text="Machine-checked proof (Coq) that, for every operator/comparison/cast and every primitive type the resolver admits for it, on both targets, the LLVM instruction, predicate or cast selected by the generator computes on bit patterns exactly the source-level result (wrapping + - *, truncating / %, signedness from the operand type, trunc/sext/zext); the selection tables are regenerated from generator.rs/resolver.rs/value_type.rs by the translator on every run, so an edited table re-states and re-checks the theorems. Tie: exhaustive opcodes stream (403 one-line functions compiled by the real compiler, opcode in the IR vs table) and an exec stream (generated programs run with lli vs the extracted definitional interpreter Model/Sem.v). Control-flow and memory lowering are validated by execution, not proved (partial).",
+   note="Trusted: Coq kernel; translator rust2coq.py; LangRef semantics transcribed in Base/Bits.v; interpreter Model/Sem.v (documented semantics); LLVM 14 and lli; the typer. Print Assumptions: closed.",
+   technique="Coq proof over translator-generated selection tables (bit-vector semantics) + exhaustive opcode correspondence + differential execution against an extracted interpreter",
+   design="5/C01"),
 }
 
 NOT_YET = {
